@@ -38,7 +38,7 @@ ITEMS = ["SolidBody/3d", "SolidBody/planestrain", "SolidBody/axi", "SolidBody/3d
          "SolidBody/mixed-axi", "SolidBody/mixed-planestrain", "SolidBody/mixed-fullblocks", "SolidBody/linear-elastic", "SolidBody/plasticity",
          "NearlyIncompressible/3d", "NearlyIncompressible/planestrain", "NearlyIncompressible/axi",
          "Pressure/3d", "Pressure/planestrain", "Pressure/axi", "CauchyStress/3d", "CauchyStress/planestrain",
-         "MPC", "Contact", "PointLoad", "BodyForce", "Gravity", "FormItem/linear-elastic", "FormItem/neo-hooke", "ItemList", "SolidBody/linear-elastic-uniform"]
+         "MPC", "Contact", "PointLoad", "BodyForce", "Gravity", "FormItem/linear-elastic", "FormItem/neo-hooke", "ItemList", "SolidBody/linear-elastic-uniform", "FormItem/nonsymmetric"]
 
 
 def kinds_for(item):
@@ -48,7 +48,7 @@ def kinds_for(item):
     if item == "NearlyIncompressible/3d":
         return K3
     if item in ("SolidBody/3d", "SolidBody/linear-elastic", "SolidBody/plasticity", "MPC", "Contact", "PointLoad", "BodyForce",
-                "Gravity", "FormItem/linear-elastic", "FormItem/neo-hooke", "ItemList"):
+                "Gravity", "FormItem/linear-elastic", "FormItem/neo-hooke", "FormItem/nonsymmetric", "ItemList"):
         return K3 + K2
     if item in ("SolidBody/mixed-threefield", "SolidBody/mixed-nearlyinc"):
         return ["hexahedron", "hexahedron20", "tetra10", "quad", "triangle6"]
@@ -413,7 +413,28 @@ def check(item, case, rec):
         fc = fem.FieldContainer([fem.Field(region, dim=dim)])
         set_state(fc, X, case, dim)
         mu, lm = 1.0 + abs(case["load"]), 2.0
-        if item.endswith("linear-elastic"):
+        if item.endswith("nonsymmetric"):
+            # a weak form without symmetry (Cauchy-elastic law sigma = mu H + beta tr(H) H^T-free part): a(v, u) != a(u, v)
+            Wc = np.array([[0.3, 1.1, -0.4], [0.0, 0.7, 0.9], [-0.6, 0.2, 0.5]])[:dim, :dim].reshape(dim, dim, 1, 1)
+
+            @fem.Form(v=fc, u=fc)
+            def bform():
+                def a(v, u, **kw):
+                    return mu * ddot(grad(v), dot(Wc, grad(u)))
+
+                return [a]
+
+            @fem.Form(v=fc)
+            def lform():
+                def L(v, **kw):
+                    H = fc.extract(grad=True, sym=False, add_identity=False)[0]
+                    return mu * ddot(grad(v), dot(Wc, H))
+
+                return [L]
+
+            it = fem.FormItem(bform, lform, sym=False)
+            symmetric = False
+        elif item.endswith("linear-elastic"):
             @fem.Form(v=fc, u=fc)
             def bform():
                 def a(v, u, **kw):
